@@ -548,8 +548,8 @@ func (X *Exec) execTypeAssert(fr *Frame, i *ssa.TypeAssert, st *State) {
 	boolT := types.Typ[types.Bool]
 	if _, isIface := i.AssertedType.Underlying().(*types.Interface); isIface {
 		// to an interface type: succeeds or not depending on the dynamic type; unknown here
-		ok := ts.Fresh("assertok", SBool)
-		st.assume(ts, ts.Implies(ok, ts.Not(ts.Eq(x.T, X.E.IfaceNil()))))
+		// (decided by go/types for the concrete types known by name)
+		ok := ts.And(ts.Not(ts.Eq(x.T, X.E.IfaceNil())), X.E.Implements(X.E.IfaceTag(x.T), i.AssertedType))
 		if i.CommaOk {
 			res := ts.Ite(ok, x.T, X.E.IfaceNil())
 			fr.Regs[i] = &Val{Tuple: []*Val{{T: res, GT: i.AssertedType}, {T: ok, GT: boolT}}, GT: i.Type()}
